@@ -47,6 +47,8 @@ CONSTANTS
     NameOrder,    \* the substance names of the pools in the order a name-sorting constructor form puts them
     BuildCfgs,    \* constructor configurations [name, checked]: whether the balance check is among the checks run
     IntegrCfgs,   \* integration configurations [name, solver, tol, c0form, tform, explicit] a case is to be run under
+    OdeCfgs,      \* ODE-system configurations [name, dep, indep : rationals]: the internal variables of the system are
+                  \* the concentrations times dep and the time times indep; nothing a caller sees depends on them
     UnitCfgs,     \* unit configurations a case is also to be run under (sequence of records, see UnitRec)
     Times,        \* output times handed to the integrator with each case (sequence of rationals)
     Tol           \* [atol, rtol : rationals requested from the integrator, guard : Nat, steprtol]: a result agrees
@@ -60,17 +62,30 @@ vars == <<subs, rxns, built, c, c0, nsteps, last, stage, hist>>
 (* substances and compositions *)
 NS == Len(subs)
 SeqRange(s) == { s[i] : i \in 1..Len(s) }
+Den(s) == IF "den" \in DOMAIN s THEN s.den ELSE 1
 WellFormedSubst(s) ==
     /\ \A i \in 1..Len(s.comp) : s.comp[i][1] \in Int /\ s.comp[i][2] \in Int
     /\ \A i, j \in 1..Len(s.comp) : i # j => s.comp[i][1] # s.comp[j][1]
+    /\ Den(s) \in Nat /\ Den(s) >= 1
 CompGet(s, key) ==
     LET ps == { i \in 1..Len(s.comp) : s.comp[i][1] = key }
     IN  IF ps = {} THEN 0 ELSE s.comp[CHOOSE i \in ps : TRUE][2]
 KeysOf(ss) == UNION { { ss[i].comp[j][1] : j \in 1..Len(ss[i].comp) } : i \in 1..Len(ss) }
 KeySeq(ss) == SetToSortSeq(KeysOf(ss), <)
 (* the composition matrix: rows = sorted keys (charge = 0 first), columns = substances *)
+(* Composition counts may be fractional (FeO1.5, a hemihydrate): a substance record may carry *)
+(* a denominator den, its counts are comp / den.  All exact algebra (balance, rank, row       *)
+(* space, totals) is done on the integer matrix scaled by the common denominator of the       *)
+(* system; what the library REPORTS (composition vectors, violations) is compared with the    *)
+(* true rational values (BMatrixQ, ViolationQ).                                               *)
+SysDen(ss) == LET RECURSIVE L(_)
+                  L(i) == IF i = 0 THEN 1 ELSE LCM(Den(ss[i]), L(i - 1))
+              IN  L(Len(ss))
+CompS(ss, i, key) == CompGet(ss[i], key) * (SysDen(ss) \div Den(ss[i]))
 BMatrix(ss) == LET ks == KeySeq(ss)
-               IN  [r \in 1..Len(ks) |-> [j \in 1..Len(ss) |-> CompGet(ss[j], ks[r])]]
+               IN  [r \in 1..Len(ks) |-> [j \in 1..Len(ss) |-> CompS(ss, j, ks[r])]]
+BMatrixQ(ss) == LET ks == KeySeq(ss)
+                IN  [r \in 1..Len(ks) |-> [j \in 1..Len(ss) |-> Norm(<<CompGet(ss[j], ks[r]), Den(ss[j])>>)]]
 
 ------------------------------------------------------------------------------
 (* reactions: [reac, prod, ireac, iprod : vectors of naturals, k : rational] *)
@@ -90,8 +105,9 @@ SameStoich(r1, r2) == r1.reac = r2.reac /\ r1.prod = r2.prod /\ r1.ireac = r2.ir
 
 (* Statement form of "leaves the key unchanged": what the product side carries minus what     *)
 (* the reactant side carries (inactive species are part of the written reaction).             *)
-Carried(ss, v, iv, key) == SumSeq([i \in 1..Len(ss) |-> (v[i] + iv[i]) * CompGet(ss[i], key)])
+Carried(ss, v, iv, key) == SumSeq([i \in 1..Len(ss) |-> (v[i] + iv[i]) * CompS(ss, i, key)])
 Violation(ss, r, key) == Carried(ss, r.prod, r.iprod, key) - Carried(ss, r.reac, r.ireac, key)
+ViolationQ(ss, r, key) == Norm(<<Violation(ss, r, key), SysDen(ss)>>)
 ViolatedKeys(ss, r) == { key \in KeysOf(ss) : Violation(ss, r, key) # 0 }
 Balanced(ss, r) == ViolatedKeys(ss, r) = {}
 Accept(ss, rs) == \A i \in 1..Len(rs) : Balanced(ss, rs[i])
@@ -160,14 +176,14 @@ QLeSafe(a, b) == IF a[1] < 0 \/ b[1] < 0 THEN QLe(a, b)
                  ELSE CmpPos(a[1], a[2], b[1], b[2]) <= 0
 QMinSetSafe(S) == CHOOSE a \in S : \A b \in S : QLeSafe(a, b)
 ElemKeys(s) == { s.comp[j][1] : j \in { i \in 1..Len(s.comp) : s.comp[i][1] # 0 /\ s.comp[i][2] > 0 } }
-Total(ss, cc, key) == QSumOver(Len(cc), LAMBDA j : QMul(Q(CompGet(ss[j], key)), cc[j]))
+Total(ss, cc, key) == QSumOver(Len(cc), LAMBDA j : QMul(Q(CompS(ss, j, key)), cc[j]))
 (* a molecule holding a atoms of an element cannot be more concentrated than total/a; the     *)
 (* least such quotient over its elements; charge is not a supply; no element = no bound       *)
 (* the caller may ask to leave further keys out of consideration (skip): they bound nothing   *)
 UpperBoundSkip(ss, i, cc, skip) ==
     LET ks == ElemKeys(ss[i]) \ skip
     IN  IF ks = {} THEN Inf
-        ELSE QMinSet({ QDiv(Total(ss, cc, key), Q(CompGet(ss[i], key))) : key \in ks })
+        ELSE QMinSet({ QDiv(Total(ss, cc, key), Q(CompS(ss, i, key))) : key \in ks })
 UpperBound(ss, i, cc) == UpperBoundSkip(ss, i, cc, {})
 BoundsSkip(ss, cc, skip) == [i \in 1..Len(cc) |-> UpperBoundSkip(ss, i, cc, skip)]
 Bounds(ss, cc) == BoundsSkip(ss, cc, {})
@@ -217,6 +233,9 @@ FormOKAt(ss, e, u, const, y0) ==
 (* module); the Substance objects' own names are labels without meaning for balance.  A case  *)
 (* offers keys that differ from every label: the same system must result under them.          *)
 AliasOf(i) == "s" \o ToString(i) \o "x"
+(* Composition keys need not be integers: any labels that sort like the keys do (the README   *)
+(* counts eggs and cups of milk).  A case offers a label for each key, in the same order.     *)
+KeyLabel(k) == "k" \o (IF k < 10 THEN "00" ELSE IF k < 100 THEN "0" ELSE "") \o ToString(k)
 
 (* a constructor form that sorts the substances by name puts them in the order of NameOrder  *)
 NameRank(n) == CHOOSE i \in 1..Len(NameOrder) : NameOrder[i] = n
@@ -588,7 +607,7 @@ RedRec ==
         ss == RedSubs(subs, us)
         rs == RedRxns(rxns, us)
         cc == IF c0 = <<>> THEN <<>> ELSE RestrictVec(c0, us)
-    IN  [ subs |-> ss, rxns |-> rs, keys |-> KeySeq(ss), B |-> BMatrix(ss), sortperm |-> SortPerm(ss), poly |-> RhsPoly(rs, Len(ss)),
+    IN  [ subs |-> ss, rxns |-> rs, keys |-> KeySeq(ss), B |-> BMatrix(ss), Bq |-> BMatrixQ(ss), sortperm |-> SortPerm(ss), poly |-> RhsPoly(rs, Len(ss)),
           G |-> IF FirstOrder(rs) THEN GenMatrix(rs, Len(ss)) ELSE <<>>,
           dyn |-> DynRec(ss, rs, cc),
           prev |-> IF ~HasSetParam \/ cc = <<>> THEN [has |-> FALSE]
@@ -601,13 +620,14 @@ RedRec ==
 CaseRec ==
     [ in  |-> [ subs |-> Subs0, rxns |-> Rxns0, lines |-> SysLines(Subs0, Rxns0), hist |-> hist,
                 c0 |-> IF c0 = <<>> THEN <<>> ELSE [i \in 1..NS |-> c0[i][1]],
-                tout |-> Times, tol |-> Tol, cfgs |-> BuildCfgs, sortperm |-> SortPerm(Subs0),
-                aliases |-> [i \in 1..NS |-> AliasOf(i)] ],
+                tout |-> Times, tol |-> Tol, cfgs |-> BuildCfgs, ocfgs |-> OdeCfgs, sortperm |-> SortPerm(Subs0),
+                aliases |-> [i \in 1..NS |-> AliasOf(i)],
+                keylabels |-> LET ks == KeySeq(subs) IN [i \in 1..Len(ks) |-> <<ks[i], KeyLabel(ks[i])>>] ],
       cls |-> Class,
       exp |-> IF built = "rejected"
               THEN [ accept |-> FALSE, keys |-> KeySeq(subs), viol |-> [i \in 1..Len(rxns) |-> ViolSeq(rxns[i])],
                      anyviol |-> SetToSortSeq(AllViolatedKeys(subs, rxns), <) ]
-              ELSE [ accept |-> TRUE, keys |-> KeySeq(subs), B |-> BMatrix(subs), N |-> NetMatrix(rxns),
+              ELSE [ accept |-> TRUE, keys |-> KeySeq(subs), B |-> BMatrix(subs), Bq |-> BMatrixQ(subs), N |-> NetMatrix(rxns),
                      rank |-> RankB(subs), red |-> RedRec ] ]
 Emit == Done => PrintT(<<"CASE", ToJson(CaseRec)>>)
 =============================================================================
